@@ -173,6 +173,11 @@ func installHooks() {
 			sort.Strings(sorted)
 			roots = nthPerm(sorted, c.planPerm)
 		}
+		// the fold order actually used, as tokens (strict conformance of the merge transcription)
+		c.lastOrder = c.lastOrder[:0]
+		for _, r := range roots {
+			c.lastOrder = append(c.lastOrder, st.tr.VersionToken(r))
+		}
 		return roots, when
 	}
 }
